@@ -139,6 +139,7 @@ type SymPath struct {
 	Env     *SymEnv
 	Ret     []Aff
 	RetNode *ast.ReturnStmt
+	Continues bool // loop segment: the path re-enters the loop head
 }
 
 type SymEnv struct {
@@ -1002,4 +1003,90 @@ func (sp *SymPath) Feasible() bool {
 		}
 	}
 	return true
+}
+
+// mainSwitchLoop returns the outermost loop of a function whose body contains a switch statement.
+func mainSwitchLoop(p *GoProg, fd *ast.FuncDecl) ast.Stmt {
+	var found ast.Stmt
+	ast.Inspect(fd.Body, func(n ast.Node) bool {
+		if found != nil {
+			return false
+		}
+		var body *ast.BlockStmt
+		switch l := n.(type) {
+		case *ast.ForStmt:
+			body = l.Body
+		case *ast.RangeStmt:
+			body = l.Body
+		case *ast.FuncLit:
+			return false
+		default:
+			return true
+		}
+		has := false
+		for _, st := range body.List {
+			if _, ok := st.(*ast.SwitchStmt); ok {
+				has = true
+			}
+		}
+		if has {
+			found = n.(ast.Stmt)
+			return false
+		}
+		return true
+	})
+	return found
+}
+
+// LoopSegmentPaths symbolically executes one iteration of a loop: from its head until the head is re-entered or the function exits.
+func (p *GoProg) LoopSegmentPaths(fd *ast.FuncDecl, loop ast.Stmt, limit int) []*SymPath {
+	return p.LoopSegmentPathsSetup(fd, loop, limit, nil)
+}
+
+// LoopSegmentPathsSetup is LoopSegmentPaths with a hook that prepares the environment at the loop head.
+func (p *GoProg) LoopSegmentPathsSetup(fd *ast.FuncDecl, loop ast.Stmt, limit int, setup func(env *SymEnv)) []*SymPath {
+	if loop == nil {
+		return nil
+	}
+	fg := p.FGOf(fd)
+	head := fg.LoopHead(loop)
+	if head < 0 {
+		return nil
+	}
+	paths, ok := fg.EnumSegment(head, 0, map[int]bool{head: true}, limit)
+	if !ok {
+		return nil
+	}
+	var out []*SymPath
+	for _, pa := range paths {
+		env := p.NewFuncEnv(fd)
+		if setup != nil {
+			setup(env)
+		}
+		sp := p.ExecPath(pa, env)
+		if pa.Exit != nil && int(pa.Exit.Index) == head && len(pa.Exit.Succs) > 0 {
+			sp.Continues = true
+		}
+		out = append(out, sp)
+	}
+	return out
+}
+
+
+// SetLocal binds a local variable (by name, looked up among the function's definitions) to a value.
+func (e *SymEnv) SetLocal(fd *ast.FuncDecl, name string, v Aff) bool {
+	found := false
+	ast.Inspect(fd.Body, func(n ast.Node) bool {
+		if found {
+			return false
+		}
+		if id, ok := n.(*ast.Ident); ok && id.Name == name {
+			if o := e.p.Info.Defs[id]; o != nil {
+				e.vars[o] = v
+				found = true
+			}
+		}
+		return true
+	})
+	return found
 }
